@@ -194,7 +194,7 @@ func (p *Policy) VerifSanitizeAttrs(element string, attrs []html.Attribute) ([]h
 }
 
 // VerifRemoveUnicode exposes removeUnicode.
-func VerifRemoveUnicode(s string) string { return removeUnicode(s) }
+func VerifRemoveUnicode(s string) (string, bool) { return removeUnicode(s) }
 
 // VerifIsDataAttribute exposes isDataAttribute.
 func VerifIsDataAttribute(s string) bool { return isDataAttribute(s) }
